@@ -983,7 +983,11 @@ where
             }))
           }
           Err(TrySendError::Full(wc)) => {
+            #[cfg(rustdds_verif)]
+            crate::verif::sched::yp("w1");
             *self.writer.cc_upload_waker.lock().unwrap() = Some(cx.waker().clone());
+            #[cfg(rustdds_verif)]
+            crate::verif::sched::yp("w2");
             if Instant::now() < self.timeout_instant {
               // Put our command back
               self.writer_command = Some(wc);
@@ -1098,6 +1102,8 @@ where
           }) {
           Ok(()) => {
             *self = AsyncWaitForAcknowledgments::Waiting { ack_wait_receiver };
+            #[cfg(rustdds_verif)]
+            crate::verif::sched::yp("a1");
             Poll::Pending
           }
 
